@@ -18,7 +18,7 @@
    sequence), ex_sites_after_clear, ex_tracked_after_clear, ex_seek_nan, ex_iter_run. *)
 From Coq Require Import List ZArith.
 From TskVerif Require Import Base.Common C06.Model C06.Facts C06.BasicProofs C06.ListFacts C06.Valid
-  C06.CursorProofs C06.NavProofs C06.Theorems C06.IterProofs.
+  C06.CursorProofs C06.NavProofs C06.Theorems C06.IterProofs C06.FullProofs.
 Import ListNotations.
 Open Scope Z_scope.
 
@@ -98,6 +98,19 @@ Theorem iter_reversed : forall ts n, valid_tsb ts = true ->
               inv ts (it_tree it') /\
               (Z.of_nat n >= num_trees ts + 1 -> it_more it' = false /\ t_index (it_tree it') = -1).
 Proof. exact iter_reverse_proof. Qed.
+
+(* (h) The machine WITH tracked-sample counts (mode [full]: the ancestor walks of
+   tsk_tree_insert_edge / tsk_tree_remove_edge and the partial reset of tsk_tree_clear; this is
+   the machine the correspondence evaluates) refines [core]: because node times strictly
+   increase along every edge (acyclicity, part of valid_tsb) the walks terminate within their
+   fuel, so for EVERY op list the run succeeds, returns the same values and ends with the same
+   [abs], which is the SPEC state.  Hence (a)-(g) hold for it too.  (What remains differential:
+   the VALUES of the tracked counts, and the views C01 owns.) *)
+Theorem full_refines_core : forall ts ops, valid_tsb ts = true ->
+  exists sc sf outs, run core ts ops = Ok (sc, outs) /\ run full ts ops = Ok (sf, outs) /\
+    abs (fst sf) = abs (fst sc) /\ abs (snd sf) = abs (snd sc) /\
+    spec_state ts (fst sf) /\ spec_state ts (snd sf).
+Proof. exact full_refines_core_proof. Qed.
 
 (* (g) seek is total on EVERY argument, NaN included (fix eee123e): Tree.seek(x) either lands
    on the tree containing x, or raises ValueError and leaves both trees untouched; the
